@@ -182,8 +182,11 @@ class FrequencyAxis(ValueAxis, EnergyUnitsManaged):
             raise Exception("Unknown frequency axis type")
 
     def copy(self):
-        axis = FrequencyAxis(self.start, self.length, self.step,
-                             atype=self.atype, time_start=self.time_start)
+        # start and step have to be read and handed over in the same
+        # (internal) units
+        with energy_units("int"):
+            axis = FrequencyAxis(self.start, self.length, self.step,
+                                 atype=self.atype, time_start=self.time_start)
         return axis
         
         
